@@ -40,12 +40,12 @@ theorem loop_leaf_block (ctx : ImplContext) (named : Bool) (cp : ChildPath) (crc
     | succ n =>
       simp only [List.map_nil, List.nil_append, flatLines, List.append_nil]
       cases hrest with
-      | inl h => subst h; simp [structInitLoop]
+      | inl h => subst h; simp [structInitLoop, levelBreak]
       | inr h =>
         obtain ⟨fc, rs, hr, hm⟩ := h
         subst hr
         unfold structInitLoop
-        simp [hpfx, hm, bind, Except.bind, pure, Except.pure]
+        simp [levelBreak, hpfx, hm, bind, Except.bind, pure, Except.pure]
   | p :: block, rest, fuel, frags, idx, hf, hb, hrest => by
     cases fuel with
     | zero => simp at hf
@@ -56,7 +56,7 @@ theorem loop_leaf_block (ctx : ImplContext) (named : Bool) (cp : ChildPath) (crc
       have ih := loop_leaf_block ctx named cp crc d pfx hpfx hint hk block rest n
       simp only [List.map_cons, List.cons_append, flatLines]
       unfold structInitLoop
-      simp only [hpfx, hpath, pathMatches_self, bind, Except.bind, pure, Except.pure, Bool.not_true, Bool.false_eq_true,
+      simp only [levelBreak, hpfx, hpath, pathMatches_self, bind, Except.bind, pure, Except.pure, Bool.not_true, Bool.false_eq_true,
         ↓reduceIte, hfd, Option.map_some, hca]
       by_cases hs : fieldSkipped ctx p.2 = true
       · simp only [hs, ↓reduceIte]
@@ -68,6 +68,7 @@ theorem loop_leaf_block (ctx : ImplContext) (named : Bool) (cp : ChildPath) (crc
         | zero => simp at hn
         | succ n' =>
           unfold renderChildFragment
+          simp only [deeperThan, nextDepth, Option.map_none, Option.map_some]
           have hdeep : (d < ca.childPath.strs.length - 1) = False := by simp [hlen]
           simp only [hdeep, decide_false, Bool.false_eq_true, ↓reduceIte, List.drop_one, List.tail_cons, bind, Except.bind, pure, Except.pure,
             childLineHint_not_from ctx ca hint hk]
@@ -171,11 +172,12 @@ theorem loop_top_child_block (ctx : ImplContext) (named : Bool) (hint : TypeHint
   have hget : ca.childPath.getStr (some 0) = .ok pfx := by simp [ChildPath.getStr, hstrs]
   simp only [List.map_cons, List.cons_append]
   conv => lhs; unfold structInitLoop
-  simp only [bind, Except.bind, pure, Except.pure, Bool.false_eq_true, ↓reduceIte, hfd, hns, hca0, Option.map_none]
+  simp only [levelBreak, levelBreak, bind, Except.bind, pure, Except.pure, Bool.false_eq_true, ↓reduceIte, hfd, hns, hca0, Option.map_none]
   cases fuel with
   | zero => simp at hf
   | succ n =>
     unfold renderChildFragment
+    simp only [deeperThan, nextDepth, Option.map_none, Option.map_some]
     simp only [↓reduceIte, hk, hcpa, hget, hfind, hnr, bind, Except.bind, pure, Except.pure]
     have := renderChild_leaf_block ctx nr ca.childPath 0 pfx hget { ty := cdata.ty, typeHint := cdata.typeHint } hint (cls_into_not_from hk)
       (p0 :: block) rest n (by simp; omega) hall hrest
@@ -274,7 +276,7 @@ theorem structInitLoop_segments (ctx : ImplContext) (named : Bool) (hint : TypeH
       have ih := structInitLoop_segments ctx named hint hk cpa hcpa nr hnr rest n
       simp only [List.flatMap_cons, Segment.containers, List.singleton_append, segmentsSpec]
       conv => lhs; unfold structInitLoop
-      simp only [bind, Except.bind, pure, Except.pure, Bool.false_eq_true, ↓reduceIte, hfd, hch, Option.map_none]
+      simp only [levelBreak, levelBreak, bind, Except.bind, pure, Except.pure, Bool.false_eq_true, ↓reduceIte, hfd, hch, Option.map_none]
       by_cases hs : fieldSkipped ctx f = true
       · simp only [hs, ↓reduceIte]
         exact ih frags idx hn hwf'
